@@ -7,8 +7,8 @@ package server
 
 import (
 	"context"
-	"fmt"
 	"encoding/binary"
+	"fmt"
 	"io"
 	"log/slog"
 	"net"
